@@ -2,6 +2,12 @@
 //! Input line: `list`  -> scenario names, space separated
 //!             `<scenario> <K> <seed>` -> `<allocs> <reallocs> <deallocs> <extra...>` measured over K
 //!             further calls AFTER construction and one warm-up call.
+//!             `caps <G|S> <cap0> ; op , op , ...` -> capacity trace of ONE `Processor::with_capacity(cap0)`
+//!             over a graph of stock `Pass` nodes built and processed by the script (G = petgraph::Graph,
+//!             S = StableGraph): `N` add a node, `E a b` add an edge, `R a` remove node a (S only),
+//!             `P o` Processor::process(graph, o).  Output: per `P`, `;`-separated,
+//!             `<stack capacity> <inputs capacity> <allocs + reallocs during the call> <deallocs during the call>`
+//!             (capacities through `Processor::verif_capacities()`, heap traffic from the counting allocator).
 use dasp_envelope as envelope;
 use dasp_frame::Frame;
 use dasp_graph::{node, Buffer, BoxedNode, BoxedNodeSend, NodeData, Processor};
@@ -1886,11 +1892,78 @@ where
     black_box(rb.len());
 }
 
+macro_rules! caps_case {
+    ($gty:ty, $stable:tt, $cap0:expr, $ops:expr) => {{
+        let ops: &Vec<Vec<&str>> = $ops;
+        let mut g: $gty = <$gty>::default();
+        let mut p: Processor<$gty> = Processor::with_capacity($cap0);
+        let mut out: Vec<String> = Vec::new();
+        for op in ops {
+            let a: Vec<usize> = op[1..].iter().map(|t| t.parse().unwrap()).collect();
+            match op[0] {
+                "N" => {
+                    g.add_node(NodeData::new1(BoxedNode::new(node::Pass)));
+                }
+                "E" => {
+                    g.add_edge(petgraph::graph::NodeIndex::new(a[0]), petgraph::graph::NodeIndex::new(a[1]), ());
+                }
+                "R" => {
+                    caps_case!(@remove $stable, g, a[0]);
+                }
+                "P" => {
+                    let before = snap();
+                    p.process(&mut g, petgraph::graph::NodeIndex::new(a[0]));
+                    let after = snap();
+                    let c = p.verif_capacities();
+                    out.push(join(&[
+                        c.0 as i64,
+                        c.1 as i64,
+                        (after.0 - before.0 + after.1 - before.1) as i64,
+                        (after.2 - before.2) as i64,
+                    ]));
+                }
+                other => panic!("unknown op {}", other),
+            }
+        }
+        out.join(";")
+    }};
+    (@remove true, $g:ident, $a:expr) => {
+        $g.remove_node(petgraph::graph::NodeIndex::new($a));
+    };
+    (@remove false, $g:ident, $a:expr) => {{
+        let _ = $a;
+        panic!("R is only supported on StableGraph")
+    }};
+}
+
+fn caps_line(line: &str) -> String {
+    let mut parts = line.splitn(2, ';');
+    let head: Vec<&str> = parts.next().unwrap().split_whitespace().collect();
+    let cap0: usize = head[2].parse().unwrap();
+    let ops: Vec<Vec<&str>> = parts
+        .next()
+        .unwrap_or("")
+        .split(',')
+        .map(|o| o.split_whitespace().collect::<Vec<_>>())
+        .filter(|o| !o.is_empty())
+        .collect();
+    type PG = petgraph::graph::DiGraph<NodeData<BoxedNode>, ()>;
+    type SG = petgraph::stable_graph::StableDiGraph<NodeData<BoxedNode>, ()>;
+    match head[1] {
+        "G" => caps_case!(PG, false, cap0, &ops),
+        "S" => caps_case!(SG, true, cap0, &ops),
+        other => panic!("unknown graph kind {}", other),
+    }
+}
+
 fn main() {
     serve(|line| {
         let t: Vec<&str> = line.split_whitespace().collect();
         if t[0] == "list" {
             return NAMES.join(" ");
+        }
+        if t[0] == "caps" {
+            return caps_line(line);
         }
         let k: usize = t[1].parse().unwrap();
         let seed: u64 = t[2].parse().unwrap();
